@@ -35,6 +35,7 @@ type Program struct {
 	implCache    map[*types.Interface][]types.Type
 	loadSeconds  float64
 	ghostCache   map[*ssa.Function]*ghostSet
+	libCache     map[string]*ssa.Function
 }
 
 var repoModulePrefixes = []string{"github.com/formancehq/ledger", "github.com/formancehq/stack/libs/go-libs"}
@@ -260,3 +261,32 @@ func (p *Program) lookupIface(it types.Type, m *types.Func) *FuncContract {
 }
 
 func (p *Program) heapSort(vc *VC, name string) string { return "" }
+
+// libFunc finds a library function or method by the name funcName gives it.
+func (p *Program) libFunc(name string) *ssa.Function {
+	if p.libCache == nil {
+		p.libCache = map[string]*ssa.Function{}
+		for _, tp := range p.allTypesPkgs {
+			sp := p.ssaProg.Package(tp)
+			if sp == nil {
+				continue
+			}
+			for _, m := range sp.Members {
+				switch x := m.(type) {
+				case *ssa.Function:
+					p.libCache[p.funcName(x)] = x
+				case *ssa.Type:
+					for _, t := range []types.Type{x.Type(), types.NewPointer(x.Type())} {
+						ms := p.ssaProg.MethodSets.MethodSet(t)
+						for i := 0; i < ms.Len(); i++ {
+							if f := p.ssaProg.MethodValue(ms.At(i)); f != nil && f.Synthetic == "" {
+								p.libCache[p.funcName(f)] = f
+							}
+						}
+					}
+				}
+			}
+		}
+	}
+	return p.libCache[name]
+}
